@@ -77,6 +77,9 @@ def corpus():
     fe, fn_ = pts(rng, 4)
     wts = [[0.5, 4.0, 1.0, 2.0, 0.25, 3.0, 1.5, 1.0, 2.5], [2.0, 1.0, 0.5, 3.0, 1.0, 0.25, 4.0, 1.5, 1.0]]
     cs.append(_spline_case("spline", es, ns, [d], wts[:1], None, [[x + 1 / 128 for x in fe], fn_], 0.5, 1.0))
+    fe9, fn9 = pts(rng, 9)
+    cs.append(_spline_case("spline", es, ns, [d], None, None, [[x + 1 / 128 for x in fe9], fn9], 0.5, 0.0))     # square but NOT symmetric
+    cs.append(_spline_case("vector", es, ns, [d, d[::-1]], None, None, [[x + 1 / 128 for x in fe9], fn9], 0.5, 4.0))
     cs.append(_spline_case("vector", es, ns, [d, d[::-1]], wts, None, [[x + 1 / 128 for x in fe], fn_], 0.5, 4.0))
     return cs
 
@@ -111,7 +114,7 @@ def generate(rng, tier):
             es, ns = pts(rng, npts)
             force = None
             if rng.random() < 0.4:
-                fe, fn_ = pts(rng, rng.randint(2, max(2, npts - 1)))
+                fe, fn_ = pts(rng, npts if rng.random() < 0.25 else rng.randint(2, max(2, npts - 1)))     # sometimes as many forces as data
                 force = [[x + 1 / 128 for x in fe], fn_]
             kind = "spline" if rng.random() < 0.55 else "vector"
             ncomp = 1 if kind == "spline" else 2
@@ -195,7 +198,7 @@ def compare(case, io, mo):
     # compare predictions J p (well conditioned even when p is not) and parameters when the system is well conditioned
     pi, pm = J @ np.array(p_impl), J @ np.array(p_model)
     sc = max(1.0, float(np.max(np.abs(d))))
-    if np.max(np.abs(pi - pm)) > 1e-6 * sc:
+    if not (np.max(np.abs(pi - pm)) <= 1e-6 * sc):
         # scikit-learn's LinearRegression solves with lstsq(cond=1e-6)-like singular-value truncation on the column-scaled,
         # weight-scaled Jacobian: beyond ~1e5 the undamped answer legitimately departs from the exact optimum ("whenever that
         # problem is well conditioned")
@@ -209,7 +212,7 @@ def compare(case, io, mo):
     if case["fn"] == "trend":
         pred_m = C.tofloat(mo[1])
         for x, y in zip(io[1]["pred"], pred_m):
-            if abs(x - y) > 1e-5 * max(1.0, abs(y), sc):
+            if not (abs(x - y) <= 1e-5 * max(1.0, abs(y), sc)):
                 return f"diff:Trend.predict {x} vs model {y}"
     return "ok"
 
@@ -233,7 +236,7 @@ def oracle(case, io):
     # independently assembled and solved problem
     ref = np.linalg.solve(A, J.T @ (ws * d))
     sc = max(1.0, float(np.max(np.abs(d))))
-    if np.max(np.abs(J @ p - J @ ref)) > 1e-6 * sc * max(1.0, cond * 1e-9):
+    if not (np.max(np.abs(J @ p - J @ ref)) <= 1e-6 * sc * max(1.0, cond * 1e-9)):
         return (f"fitted parameters are not the weighted, damped least-squares optimum: predictions differ from an independently solved "
                 f"problem by {np.max(np.abs(J @ p - J @ ref))}")
     # objective is not improved by perturbations
@@ -256,7 +259,7 @@ def oracle(case, io):
         if C.is_err(r2):
             return "fit with scaled weights failed"
         p2 = np.array(r2["params"])
-        if np.max(np.abs(J @ p2 - J @ p)) > 1e-6 * sc * max(1.0, cond * 1e-9):
+        if not (np.max(np.abs(J @ p2 - J @ p)) <= 1e-6 * sc * max(1.0, cond * 1e-9)):
             return "multiplying all weights by a positive constant changed an undamped fit"
     return None
 
